@@ -62,6 +62,7 @@ structure DState where
   dom : Dom Float := ⟨0, 0, 0⟩
   sys : Sys Float := Sys.init 0 1
   prism : Prism Float := default
+  world : World Float := World.init 0 1
 
 def grid (n : Nat) (f : Nat → Nat → String) : String :=
   " ".intercalate ((List.range n).flatMap fun i => (List.range n).map fun j => f i j)
@@ -89,6 +90,48 @@ def calcRes (s : DState) (r : Except Err (Prism Float × String)) : DState × St
 
 def step (s : DState) (toks : List String) : DState × String :=
   match toks with
+  -- ---------------- object-identity model of System -> PRISM (C16)
+  | ["w.new", n, kT] => ({ s with world := World.init n.toNat! (hexToFloat kT) }, "ok")
+  | "w.op" :: rest =>
+      let op : Option (SOp Float) :=
+        match rest with
+        | ["kT", v] => some (.setKT (hexToFloat v))
+        | ["dom", "none"] => some (.setDom none)
+        | ["dom", L, dr] => some (.setDom (some (Dom.ofDr L.toNat! (hexToFloat dr))))
+        | "dens" :: v :: ts => some (.setDens (nats ts) (hexToFloat v))
+        | "diam" :: v :: ts => some (.setDiam (nats ts) (hexToFloat v))
+        | ["pot", i, j, "none"] => some (.setPot i.toNat! j.toNat! none)
+        | "pot" :: i :: j :: kind :: sg :: ps => some (.setPot i.toNat! j.toNat! (some ⟨pkindOf kind, hexs ps, if sg = "N" then none else some (hexToFloat sg)⟩))
+        | ["clo", i, j, "none"] => some (.setClo i.toNat! j.toNat! none)
+        | ["clo", i, j, kind, hc] => some (.setClo i.toNat! j.toNat! (some (ckindOf kind, hc = "1")))
+        | ["om", i, j, "none"] => some (.setOm i.toNat! j.toNat! none)
+        | "om" :: i :: j :: kind :: N :: ps => some (.setOm i.toNat! j.toNat! (some ⟨okindOf kind, N.toNat!, hexs ps⟩))
+        | ["potsigma", i, j, v] => some (.editPotSigma i.toNat! j.toNat! (if v = "N" then none else some (hexToFloat v)))
+        | ["create"] => some .create
+        | _ => none
+      match op with
+      | none => (s, "bad-op")
+      | some o =>
+        let (w', ok) := s.world.step o
+        ({ s with world := w' }, if ok then (match o with | .create => s!"ok {w'.prisms.length - 1}" | _ => "ok") else (match o with | .create => "ERR ValueError" | _ => "ERR rejected"))
+  | ["w.obs"] =>
+      let w := s.world
+      let prs := upperPairs w.sys.n
+      let sysPart := prs.map fun (i, j) =>
+        let us := match (w.sys.potR i j).bind w.st.pot with | none => "-" | some P => optHex P.sigma
+        let cs := match (w.sys.cloR i j).bind w.st.clo with
+          | none => "- -"
+          | some C => s!"{optHex C.sigma} {match C.potential with | none => "N" | some u => toString u.size}"
+        s!"P{i}{j} {us} {cs}"
+      let qs := (List.range w.prisms.length).map fun k =>
+        let q := w.prisms[k]!
+        s!"Q{k} " ++ " ".intercalate (prs.map fun (i, j) =>
+          let P := (w.st.pot (q.potR i j)).getD default
+          let C := (w.st.clo (q.cloR i j)).getD default
+          s!"P{i}{j} {optHex P.sigma} {optHex C.sigma} {fl (C.potential.getD #[]).toList}")
+      (s, "S " ++ " ".intercalate sysPart ++ " | " ++ " | ".intercalate qs)
+  | ["w.prism", k] => ({ s with prism := (s.world.prisms[k.toNat!]!).core }, "ok")
+  | ["w.check"] => (s, toString (absSys s.world.st s.world.sys).check)
   -- ---------------- System / PRISM / calculate (C01-C06, C16)
   | ["sys.new", n, kT] => ({ s with sys := Sys.init n.toNat! (hexToFloat kT) }, "ok")
   | ["sys.kT", kT] => ({ s with sys := { s.sys with kT := hexToFloat kT } }, "ok")
